@@ -14,25 +14,25 @@ import (
 )
 
 type Alloc struct {
-	Key         string `json:"key"`
-	App         string `json:"app"`
-	Node        string `json:"node,omitempty"`
-	Res         res.R  `json:"res"`
-	Allocated   bool   `json:"allocated,omitempty"`
-	Placeholder bool   `json:"ph,omitempty"`
-	Released    bool   `json:"released,omitempty"`
-	Preempted   bool   `json:"preempted,omitempty"`
-	Foreign     bool   `json:"foreign,omitempty"`
-	TaskGroup   string `json:"tg,omitempty"`
-	Prio        int32  `json:"prio,omitempty"`
-	ReqNode     string `json:"reqNode,omitempty"`
-	ReleaseKey  string `json:"releaseKey,omitempty"`
-	Triggered   bool   `json:"triggeredPreemption,omitempty"`
-	AllowOther  bool   `json:"allowPreemptOther,omitempty"`
-	AllowSelf   bool   `json:"allowPreemptSelf,omitempty"`
-	Originator  bool   `json:"originator,omitempty"`
-	CreateUnix  int64  `json:"createUnix,omitempty"`
-	PHUsed      bool   `json:"phUsed,omitempty"`
+	Key         string              `json:"key"`
+	App         string              `json:"app"`
+	Node        string              `json:"node,omitempty"`
+	Res         res.R               `json:"res"`
+	Allocated   bool                `json:"allocated,omitempty"`
+	Placeholder bool                `json:"ph,omitempty"`
+	Released    bool                `json:"released,omitempty"`
+	Preempted   bool                `json:"preempted,omitempty"`
+	Foreign     bool                `json:"foreign,omitempty"`
+	TaskGroup   string              `json:"tg,omitempty"`
+	Prio        int32               `json:"prio,omitempty"`
+	ReqNode     string              `json:"reqNode,omitempty"`
+	ReleaseKey  string              `json:"releaseKey,omitempty"`
+	Triggered   bool                `json:"triggeredPreemption,omitempty"`
+	AllowOther  bool                `json:"allowPreemptOther,omitempty"`
+	AllowSelf   bool                `json:"allowPreemptSelf,omitempty"`
+	Originator  bool                `json:"originator,omitempty"`
+	CreateUnix  int64               `json:"createUnix,omitempty"`
+	PHUsed      bool                `json:"phUsed,omitempty"`
 	Ptr         *objects.Allocation `json:"-"`
 }
 
@@ -53,35 +53,35 @@ type Node struct {
 }
 
 type Queue struct {
-	Path         string            `json:"path"`
-	Parent       string            `json:"parent,omitempty"`
-	Leaf         bool              `json:"leaf"`
-	Managed      bool              `json:"managed"`
-	State        string            `json:"state"`
-	Max          res.R             `json:"max"` // nil = not set; keeps explicit zeros
-	Guaranteed   res.R             `json:"guaranteed"`
-	Allocated    res.R             `json:"allocated"`
-	Pending      res.R             `json:"pending"`
-	Preempting   res.R             `json:"preempting"`
-	MaxApps      uint64            `json:"maxApps,omitempty"`
-	Running      uint64            `json:"running,omitempty"`
-	Allocating   []string          `json:"allocating,omitempty"`
-	Props        map[string]string `json:"props,omitempty"`
-	Children     []string          `json:"children,omitempty"`
-	Apps         []string          `json:"apps,omitempty"`
-	ReservedApps map[string]int    `json:"reservedApps,omitempty"`
-	PreemptionEnabled bool         `json:"preemptionEnabled"`
-	PreemptFence bool              `json:"preemptFence,omitempty"`
-	PrioFence    bool              `json:"prioFence,omitempty"`
-	PrioOffset   int32             `json:"prioOffset,omitempty"`
-	SortPolicy   string            `json:"sort,omitempty"`
-	PrioSort     bool              `json:"prioSort,omitempty"`
-	PreemptDelay string            `json:"preemptDelay,omitempty"`
-	QuotaDelay   string            `json:"quotaDelay,omitempty"`
-	CurPrio      int32             `json:"curPrio,omitempty"`
-	Template     *dao.TemplateInfo `json:"template,omitempty"`
-	EffMax       res.R             `json:"effMax"` // GetMaxResource(): hierarchy-limited maximum
-	QuotaStart   int64             `json:"quotaStart,omitempty"` // unix nano of the quota preemption start time, 0 = not set
+	Path              string            `json:"path"`
+	Parent            string            `json:"parent,omitempty"`
+	Leaf              bool              `json:"leaf"`
+	Managed           bool              `json:"managed"`
+	State             string            `json:"state"`
+	Max               res.R             `json:"max"` // nil = not set; keeps explicit zeros
+	Guaranteed        res.R             `json:"guaranteed"`
+	Allocated         res.R             `json:"allocated"`
+	Pending           res.R             `json:"pending"`
+	Preempting        res.R             `json:"preempting"`
+	MaxApps           uint64            `json:"maxApps,omitempty"`
+	Running           uint64            `json:"running,omitempty"`
+	Allocating        []string          `json:"allocating,omitempty"`
+	Props             map[string]string `json:"props,omitempty"`
+	Children          []string          `json:"children,omitempty"`
+	Apps              []string          `json:"apps,omitempty"`
+	ReservedApps      map[string]int    `json:"reservedApps,omitempty"`
+	PreemptionEnabled bool              `json:"preemptionEnabled"`
+	PreemptFence      bool              `json:"preemptFence,omitempty"`
+	PrioFence         bool              `json:"prioFence,omitempty"`
+	PrioOffset        int32             `json:"prioOffset,omitempty"`
+	SortPolicy        string            `json:"sort,omitempty"`
+	PrioSort          bool              `json:"prioSort,omitempty"`
+	PreemptDelay      string            `json:"preemptDelay,omitempty"`
+	QuotaDelay        string            `json:"quotaDelay,omitempty"`
+	CurPrio           int32             `json:"curPrio,omitempty"`
+	Template          *dao.TemplateInfo `json:"template,omitempty"`
+	EffMax            res.R             `json:"effMax"`               // GetMaxResource(): hierarchy-limited maximum
+	QuotaStart        int64             `json:"quotaStart,omitempty"` // unix nano of the quota preemption start time, 0 = not set
 }
 
 type PHData struct {
@@ -91,26 +91,26 @@ type PHData struct {
 }
 
 type App struct {
-	ID        string            `json:"id"`
-	Where     string            `json:"where"` // live | completed | rejected
-	Queue     string            `json:"queue"`
-	HasQueue  bool              `json:"hasQueue"`
-	State     string            `json:"state"`
-	User      string            `json:"user"`
-	Groups    []string          `json:"groups,omitempty"`
-	Pending   res.R             `json:"pending"`
-	Allocated res.R             `json:"allocated"`
-	PHAlloc   res.R             `json:"phAllocated"`
-	PHAsk     res.R             `json:"phAsk,omitempty"`
-	Asks      map[string]*Alloc `json:"asks"`   // all requests (allocated or not)
-	Allocs    map[string]*Alloc `json:"allocs"` // satisfied allocations
-	Resvs     []Resv            `json:"resvs,omitempty"`
-	PH        []PHData          `json:"ph,omitempty"`
-	StateLog  []string          `json:"stateLog"`
-	Forced    bool              `json:"forced,omitempty"`
-	PHTimer   bool              `json:"phTimer,omitempty"`
-	StTimer   bool              `json:"stTimer,omitempty"`
-	Sorted    []string          `json:"-"`
+	ID        string               `json:"id"`
+	Where     string               `json:"where"` // live | completed | rejected
+	Queue     string               `json:"queue"`
+	HasQueue  bool                 `json:"hasQueue"`
+	State     string               `json:"state"`
+	User      string               `json:"user"`
+	Groups    []string             `json:"groups,omitempty"`
+	Pending   res.R                `json:"pending"`
+	Allocated res.R                `json:"allocated"`
+	PHAlloc   res.R                `json:"phAllocated"`
+	PHAsk     res.R                `json:"phAsk,omitempty"`
+	Asks      map[string]*Alloc    `json:"asks"`   // all requests (allocated or not)
+	Allocs    map[string]*Alloc    `json:"allocs"` // satisfied allocations
+	Resvs     []Resv               `json:"resvs,omitempty"`
+	PH        []PHData             `json:"ph,omitempty"`
+	StateLog  []string             `json:"stateLog"`
+	Forced    bool                 `json:"forced,omitempty"`
+	PHTimer   bool                 `json:"phTimer,omitempty"`
+	StTimer   bool                 `json:"stTimer,omitempty"`
+	Sorted    []string             `json:"-"`
 	Ptr       *objects.Application `json:"-"`
 }
 
